@@ -90,13 +90,15 @@ fn gen_case(mode: &str, seed: u64, idx: u64, tier: &str) -> Case {
         }
         "c16" => {
             let kinds = ["lin_le", "lin_eq", "lin_ne", "plus", "times", "div", "abs", "max", "min", "element", "bin_le", "bin_ne"];
-            gen::gen_big(&mut r, kinds[(idx % kinds.len() as u64) as usize])
+            let extreme = (idx / kinds.len() as u64) % 2 == 1;
+            extra = Json::obj([("regime", Json::str(if extreme { "extreme" } else { "below-2^30" }))]);
+            gen::gen_big(&mut r, kinds[(idx % kinds.len() as u64) as usize], extreme)
         }
         "c06" => {
             let optimise = idx % 5 >= 3;
             extra = Json::obj([("proof", Json::str(["scaffold", "full", "hinted"][(idx % 3) as usize])), ("optimise", Json::Bool(optimise))]);
             let mut m = gen::gen_hard(&mut r);
-            for _ in 0..300 {
+            for _ in 0..3000 {
                 let mut p = Profile::mixed();
                 p.max_space = 4_000.0;
                 p.ncons = (2, 6);
@@ -106,6 +108,17 @@ fn gen_case(mode: &str, seed: u64, idx: u64, tier: &str) -> Case {
                 }
                 let unsat = m.enumerate().is_empty();
                 if unsat != optimise {
+                    // most unsatisfiability proofs should need search: reject models that root
+                    // propagation alone refutes (except for one case in eight)
+                    if !optimise && idx % 8 != 0 {
+                        let refuted_at_post = core::guard(|| {
+                            drive::build(&m, drive::OptSpec::default_with_seed(1).to_options(), m.cons.len(), false, false).post_err.is_some()
+                        })
+                        .unwrap_or(true);
+                        if refuted_at_post {
+                            continue;
+                        }
+                    }
                     break;
                 }
             }
